@@ -1646,3 +1646,72 @@ def call_roles(ctx, modules=('filters',)):
                                why='%s passes its `%s` as the `%s` of %s: the two roles are '
                                    'exchanged or one is used twice' % (f.name, a.id, p_, h.name))
     ctx.floor('CALL-ROLES', n, 10, 'role-carrying arguments of internal calls')
+
+
+# ----------------------------------------------------------------------- TRAJ-ROLES
+def traj_roles(ctx):
+    """Feedforward filter: which of its two trajectories is used where.  The documentation gives
+    them different roles: the NOMINAL trajectory is the one the model is linearised about (with an
+    accurate reference as nominal the filter is a covariance analysis: its covariance must not
+    depend on the errors of the computed trajectory), the COMPUTED trajectory is the one whose
+    error is observed and compensated."""
+    from . import sched
+    ctx.rule('TRAJ-ROLES', 'feedforward: propagation matrices, initial covariance and the output '
+             'transform are evaluated on trajectory_nominal; the state predicted for a measurement '
+             'and the trajectory that is compensated are the computed trajectory')
+    repo = ctx.repo
+    (M,) = sched._models(ctx, (sched.FF,))
+    f = M.f
+    ctx.need('trajectory' in f.params and 'trajectory_nominal' in f.params,
+             'run_feedforward_filter: trajectory parameters')
+
+    def tables_of(e, at):
+        """names of the tables whose rows (.iloc / .loc) an expression is built from"""
+        x = Closure(f).expr(e, at, depth=3)
+        out = set()
+        for n in ast.walk(x):
+            if isinstance(n, ast.Subscript) and isinstance(n.value, ast.Attribute) and \
+                    n.value.attr in ('iloc', 'loc') and isinstance(n.value.value, ast.Name):
+                out.add(n.value.value.id)
+        return out
+    n_ob = 0
+    for st in ast.walk(M.loop):
+        if not isinstance(st, (ast.Assign, ast.Expr)):
+            continue
+        for call in ast.walk(st):
+            if not isinstance(call, ast.Call):
+                continue
+            q = M.res(call.func) or ''
+            if q.endswith('filters._compute_error_propagation_matrices') and call.args:
+                tb = tables_of(call.args[0], st)
+                n_ob += 1
+                ctx.ob('TRAJ-ROLES', tb == {'trajectory_nominal'}, None,
+                       'propagation matrices are evaluated on rows of trajectory_nominal', f=f,
+                       node=call, key='phi-nominal',
+                       why='the state at which the propagation matrices are evaluated is built from '
+                           'rows of %s: the model must be linearised about the nominal trajectory '
+                           '(covariance analysis with a reference trajectory would otherwise depend '
+                           'on the errors of the computed one)' % sorted(tb))
+            if isinstance(call.func, ast.Attribute) and call.func.attr == 'compute_matrices' and \
+                    len(call.args) >= 2:
+                tb = tables_of(call.args[1], st)
+                n_ob += 1
+                ctx.ob('TRAJ-ROLES', tb == {'trajectory'}, None,
+                       'the state predicted for a measurement comes from the computed trajectory',
+                       f=f, node=call, key='meas-computed',
+                       why='the measurement residual is formed with a state built from rows of %s: '
+                           'the error that is observed (and later compensated) is that of the '
+                           'computed trajectory' % sorted(tb))
+    h = repo.function('filters._compute_feedforward_result')
+    ctx.touch(h)
+    for n in ast.walk(h.node):
+        if isinstance(n, ast.Call) and isinstance(n.func, ast.Attribute) and \
+                n.func.attr == 'transform_to_output' and n.args:
+            n_ob += 1
+            ctx.ob('TRAJ-ROLES', norm_text(n.args[0]) == 'trajectory_nominal' and
+                   'trajectory_nominal' in h.params, None,
+                   'the output transform of the feedforward result is evaluated on the nominal '
+                   'trajectory', f=h, node=n, key='T-nominal',
+                   why='the output transform of the feedforward result is evaluated on `%s`, not '
+                       'on the nominal trajectory' % norm_text(n.args[0]))
+    ctx.floor('TRAJ-ROLES', n_ob, 3, 'role sites')
